@@ -12,6 +12,7 @@ var Checks = map[string]func(*Env) (int, error){
 	"C09": CheckC09,
 	"C12": CheckC12,
 	"C13": CheckC13,
+	"C17": CheckC17,
 }
 
 // Replay re-executes a replay file against the current working tree.
@@ -24,7 +25,7 @@ func Replay(e *Env, path string) (int, error) {
 	if err := json.Unmarshal(b, &rf); err != nil {
 		return 2, Troublef("%s: %v", path, err)
 	}
-	if rf.Engine != "schedsim" {
+	if rf.Engine != "schedsim" && rf.Engine != "toolsim" {
 		if err := e.CopyRepo(); err != nil {
 			return 2, err
 		}
@@ -61,6 +62,12 @@ func Replay(e *Env, path string) (int, error) {
 		eng = &c07Engine{e: e, src: src, cold: cold}
 	case "schedsim":
 		g, _, err := buildC12(e)
+		if err != nil {
+			return 2, err
+		}
+		eng = g
+	case "toolsim":
+		g, _, err := buildC17(e)
 		if err != nil {
 			return 2, err
 		}
